@@ -472,6 +472,27 @@ theorem ninv_create (s : S) (h : NInv s) (a : Nat) : NInv (createAccount s a) :=
       · rw [hd] at hb; injection hb with hb; exact absurd hb hab
       · rw [hd] at hb; cases hb
 
+theorem ninv_read (s : S) (h : NInv s) (r : ROp) : NInv (applyR s r) := by
+  have hi := inert_read s r
+  have st := step_read s h.inv.1 r
+  obtain ⟨_, _, _, hg⟩ := back_of_step st
+  refine ⟨inv_step h.inv st, (appended_same hi.journal hi.dirties).dj h.dj, ?_⟩
+  intro e he b hb
+  rw [hi.journal] at he
+  obtain ⟨o, ho⟩ := h.ec e he b hb
+  -- reads only add cached objects
+  have hgrow : Grows s (applyR s r) := by
+    obtain ⟨es, hj, _, hgr⟩ := st.shape
+    have : es = [] := by
+      rw [hi.journal] at hj
+      have := congrArg List.length hj
+      simp at this
+      exact this
+    subst this
+    exact hgr
+  obtain ⟨o', ho', _⟩ := hgrow.objs b o ho
+  exact ⟨o', ho'⟩
+
 theorem ninv_snapshot (s : S) (h : NInv s) : NInv (snapshot s).1 :=
   ⟨inv_step h.inv (step_snapshot s h.inv.1), h.dj, h.ec⟩
 
@@ -502,6 +523,7 @@ theorem runT_tx (b : Tree) (s : S) (h : NInv s) (hrev : RevOK s) :
   have hc : s.cache = none := h.inv.1.1
   cases b with
   | w op => exact ⟨applyW s op, rfl, ninv_write s h op, ext2_write s hc op, back_of_step (step_applyW s h.inv.1 op)⟩
+  | r op => exact ⟨applyR s op, rfl, ninv_read s h op, ext2_of_inert (inert_read s op) hc, back_of_step (step_read s h.inv.1 op)⟩
   | create a => exact ⟨createAccount s a, rfl, ninv_create s h a, ext2_create s hc a, back_of_step (step_createAccount s h.inv.1 a)⟩
   | frame ok body =>
     have x0 := ext2_snapshot s hc
@@ -808,6 +830,7 @@ theorem clean_of_obs (st : Store) (s s3 : S) (hst : s.txStore = st) (hn : NInv s
 mutual
 def Tree.OK2 (st : Store) : Tree → Prop
   | .w _ => True
+  | .r _ => True
   | .create a => CreateOK st a
   | .frame _ body => Tree.OKL2 st body
 def Tree.OKL2 (st : Store) : List Tree → Prop
@@ -819,6 +842,7 @@ mutual
 theorem ok_of_ok2 (st : Store) (b : Tree) (h : Tree.OK2 st b) : Tree.OK st b := by
   cases b with
   | w op => exact True.intro
+  | r op => exact True.intro
   | create a => exact h.1
   | frame ok body => simp only [Tree.OK2] at h; simp only [Tree.OK]; exact okl_of_okl2 st body h
 theorem okl_of_okl2 (st : Store) (bs : List Tree) (h : Tree.OKL2 st bs) : Tree.OKL st bs := by
@@ -856,6 +880,20 @@ theorem runT_full (st : Store) (b : Tree) (s : S) (g : GethSpec.G) (h : Full st 
     subst e
     exact ⟨hsim, hnb, by simp only [runGT]; exact jg_write s g h.sim h.jg op,
       clean_write st s h.store h.ninv hnb h.clean, hstore, hrev', hids'⟩
+  | r op =>
+    have e : sb = applyR s op := (Option.some.inj hra).symm
+    subst e
+    have hi := inert_read s op
+    refine ⟨hsim, hnb, ?_, ?_, hstore, hrev', hids'⟩
+    · simp only [runGT]
+      intro e he a hd
+      rw [hi.journal] at he
+      exact h.jg e he a hd
+    · intro b hb
+      rw [hi.dirties] at hb
+      have e1 := (hi.obs h.sim.cache).objs b
+      rw [hstore] at e1
+      exact e1.trans (h.clean b hb)
   | create a =>
     have e : sb = createAccount s a := (Option.some.inj hra).symm
     subst e
@@ -1093,12 +1131,14 @@ theorem C03_transaction_commit_matches_reference_partial (st : Store) (b : GethS
 /-! ### non-vacuity: a concrete transaction over a store with one contract -/
 
 /-- value arrives at the contract, a slot is rewritten; a frame that funds a new account, creates another and rewrites the slot fails;
-    a frame that bumps the nonce returns although a nested frame that self-destructs the contract fails; a fresh account is funded -/
+    a frame that bumps the nonce returns although a nested frame that self-destructs the contract fails; a fresh account is funded;
+    reads (account, GetState, GetCommittedState) in between -/
 def demoTx : List Tree :=
-  [ .w (.addBalance 1 3000000000000), .w (.setState 1 0 5),
-    .frame false [ .w (.addBalance 2 7000000000000), .create 3, .w (.setNonce 3 1), .w (.setState 1 0 9) ],
-    .frame true [ .w (.setNonce 1 2), .frame false [ .w (.suicide 1) ] ],
-    .w (.addBalance 4 2000000000000) ]
+  [ .r (.acc 1), .w (.addBalance 1 3000000000000), .r (.state 1 0), .w (.setState 1 0 5),
+    .frame false [ .r (.acc 2), .w (.addBalance 2 7000000000000), .create 3, .w (.setNonce 3 1), .r (.committed 1 0),
+                   .w (.setState 1 0 9) ],
+    .frame true [ .w (.setNonce 1 2), .frame false [ .w (.suicide 1), .r (.acc 1) ] ],
+    .w (.addBalance 4 2000000000000), .r (.state 4 7) ]
 
 def demoFinal : S := (runTL { txStore := demoStore } demoTx).getD {}
 
@@ -1137,7 +1177,7 @@ example : ∀ a, AcctRel ((commit demoFinal).txStore.acct a)
   · intro a o ho _
     have hobjs : demoFinal.objs =
         [(1, { balance := 8000000000000, nonce := 2, codeHash := 7, origin := [(0, 9)], dirty := [(0, 5)] }),
-         (4, { balance := 2000000000000 })] := by decide
+         (4, { balance := 2000000000000, origin := [(7, 0)] })] := by decide
     rw [hobjs] at ho
     by_cases h1 : a = 1
     · subst h1
